@@ -17,7 +17,8 @@ class State:
         self.trace = []         # human-readable branch labels
         self.inst = []          # instantiable universally quantified facts: callables i -> z3 Bool
         self.index_terms = []   # index terms at which `inst` facts have been / must be instantiated
-        self.ghost = {}         # per-loop ghost values
+        self.ghost = {}         # ghost state (flat keys, e.g. "os.flags")
+        self.nd_count = {}      # occurrences of each nondeterministic choice site on this path
 
     def clone(self):
         n = State()
@@ -30,7 +31,22 @@ class State:
         n.inst = list(self.inst)
         n.index_terms = list(self.index_terms)
         n.ghost = dict(self.ghost)
+        n.nd_count = dict(self.nd_count)
         return n
+
+    def nd_bool(self, site):
+        """a nondeterministic boolean whose name depends only on the choice site and how often it was reached on this
+        path, so that re-executing a statement after a NeedSplit fork meets the same constant again"""
+        import z3
+        k = self.nd_count.get(site, 0)
+        self.nd_count[site] = k + 1
+        return z3.Bool(f"nd!{site}!{k}")
+
+    def nd_int(self, site):
+        import z3
+        k = self.nd_count.get(site, 0)
+        self.nd_count[site] = k + 1
+        return z3.Int(f"nd!{site}!{k}")
 
     # heap ---------------------------------------------------------------
     def alloc(self, obj):
